@@ -747,6 +747,28 @@ func ruleFlushHeartbeat(c *Ctx, r *Rule) {
 		}
 		cyc, _ := c.pathExists(hb, ci, func(in ssa.Instruction) bool { return in == ssa.Instruction(ci) }, nil)
 		r.Ob(cyc, c.fnName(hb)+"|periodic", ci.Pos(), "the heartbeat re-evaluates the current batch periodically (loop)")
+		// no iteration skips the evaluation: between two acquisitions of the fill lock the send-if-ready call always happens
+		for _, lk := range callsIn(hb) {
+			if op, ref := syncLockOp(lk); op == opLock && ref.path == ".mu" && ref.root == ssa.Value(hb.Params[0]) {
+				sci := ci
+				// an iteration may skip only when there is no current batch at all (b.batch == nil)
+				noBatch := func(b *ssa.BasicBlock, i int) bool {
+					iff, ok := b.Instrs[len(b.Instrs)-1].(*ssa.If)
+					if !ok {
+						return true
+					}
+					v, pol := peelNot(iff.Cond, i == 0)
+					if bo, ok := v.(*ssa.BinOp); ok && (bo.Op == token.EQL || bo.Op == token.NEQ) && isLoadOfField(bo.X, pipelinePkg, "Batcher", "batch") && isNilConst(bo.Y) {
+						if (bo.Op == token.EQL) == pol {
+							return false
+						}
+					}
+					return true
+				}
+				skip, _ := c.pathExistsE(hb, lk, func(in ssa.Instruction) bool { return in == ssa.Instruction(lk) }, func(in ssa.Instruction) bool { return in == ssa.Instruction(sci) }, noBatch)
+				r.Ob(!skip, c.fnName(hb)+"|every-iteration-evaluates", lk.Pos(), "every heartbeat iteration that does not stop evaluates the current batch (an iteration that skips it leaves a partially filled batch unflushed)")
+			}
+		}
 		okL, why := c.heldInterproc(ci, lockRef{hb.Params[0], ".mu"}, 1)
 		if okL {
 			why = "the heartbeat evaluates the batch with the fill lock held"
